@@ -81,7 +81,7 @@ ReservedTypeNames == {"Match", "Class", "Visitor", "Path", "Constants", "Iterato
                       "Model_type", "I_thing", "Must_have", "Readonly", "Record"}
 ReservedMemberNames == {"match", "model_type", "descend", "descend_once", "accept", "transform", "type_name",
                         "property_name", "mutable_thing"}
-ReservedSymbolNames == {"Class", "Match", "match", "Visitor", "accept", "model_type"}
+ReservedSymbolNames == {"Class", "Match", "match", "Visitor", "accept", "model_type", "type_name", "descend_once"}
 R_reserved(m) ==
     /\ \A k \in TIdx(m) : m.types[k].name \notin ReservedTypeNames
     /\ \A k \in TIdx(m) : IsClass(m.types[k]) =>
